@@ -36,6 +36,8 @@ type c10tok struct {
 	Alt      string `json:"alternative_text,omitempty"`
 	AltFirst bool   `json:"alternative_first,omitempty"`
 	AltAny   bool   `json:"alternatives_with_any,omitempty"`
+	// AltOut: the two operators are alternatives of ONE Choice/Any and the left trim is around it
+	AltOut bool `json:"trim_around_the_alternatives,omitempty"`
 }
 
 var c10kinds = []struct{ kind, text string }{
@@ -86,7 +88,7 @@ func c10lexeme(in string, x int, t c10tok) int {
 var c10parsers = map[string]parsley.Parser{}
 
 func c10parser(t c10tok) parsley.Parser {
-	key := fmt.Sprint(t.Kind, "|", t.Text, "|", t.Left, t.Right, t.Trim, t.Inner, "|", t.Alt, t.AltFirst, t.AltAny)
+	key := fmt.Sprint(t.Kind, "|", t.Text, "|", t.Left, t.Right, t.Trim, t.Inner, "|", t.Alt, t.AltFirst, t.AltAny, t.AltOut)
 	if p, ok := c10parsers[key]; ok {
 		return p
 	}
@@ -96,6 +98,20 @@ func c10parser(t c10tok) parsley.Parser {
 }
 
 func c10build(t c10tok) parsley.Parser {
+	if t.Alt != "" && t.AltOut {
+		ps := []parsley.Parser{terminal.Op(t.Text), terminal.Op(t.Alt)}
+		if t.AltFirst {
+			ps[0], ps[1] = ps[1], ps[0]
+		}
+		var p parsley.Parser = combinator.Choice(ps...)
+		if t.AltAny {
+			p = combinator.Any(ps...)
+		}
+		if t.Left >= 0 {
+			p = text.LeftTrim(p, text.WsMode(t.Left))
+		}
+		return p
+	}
 	if t.Alt != "" {
 		one, other := t, t
 		one.Alt, other.Alt, other.Text = "", "", t.Alt
@@ -195,6 +211,19 @@ func c10simulate(in string, toks []c10tok) (errText string, spans []c10span, x i
 	return "", spans, x
 }
 
+// c10errOffset: the offset denoted by the line:column at the end of an expected error text (-1: none)
+func c10errOffset(in string, want string) int {
+	k := strings.LastIndex(want, " at f:")
+	if k < 0 {
+		return -1
+	}
+	var l, c int
+	if _, err := fmt.Sscanf(want[k+len(" at f:"):], "%d:%d", &l, &c); err != nil {
+		return -1
+	}
+	return offsetOf(in, l, c)
+}
+
 var c10ws = []string{" ", "\t", "\n", "\f", "\r\n", "  ", " \n "}
 
 func c10gap(r *rand.Rand) string {
@@ -255,7 +284,7 @@ func c10exec(j run.Job, a *run.Acc) {
 			if t.Kind == "op" && r.Intn(5) == 0 {
 				// neither text is a prefix of the other, so the alternatives are never ambiguous
 				t.Alt = map[string]string{"a": "bb", "bb": "==", "==": "c", "c": "a"}[t.Text]
-				t.AltFirst, t.AltAny = r.Intn(2) == 0, r.Intn(2) == 0
+				t.AltFirst, t.AltAny, t.AltOut = r.Intn(2) == 0, r.Intn(2) == 0, r.Intn(2) == 0
 				// left trimming only: a RightTrim around the alternatives would move the not-found error of the alternative
 				// that does not match over the whitespace (RightTrim's error rule), and then that error, not the matching
 				// alternative's whitespace error, is the furthest one - a composition the statement says nothing about
@@ -429,6 +458,20 @@ func c10exec(j run.Job, a *run.Acc) {
 				// a layout the modes forbid somewhere must not be accepted as is... but Many/SepBy may legally stop
 				// before the offending element only if the rest is empty, which Sentence excludes: so this is a violation
 				a.Violate("forbidden-whitespace-accepted", "forbidden-whitespace-accepted", d)
+			case rep == 1 && want != "TOKEN" && el.Right < 0 && (el.Alt == "" || el.Left == 3) && c10errOffset(in2, want) > xe:
+				// Many stops in front of the element whose whitespace the mode forbids and succeeds with the elements before
+				// it; Sentence's End then fails at the end of those, EARLIER than the whitespace error, so the furthest
+				// failure - the mode's whitespace error - is what the parse reports (the cases in which the two positions
+				// coincide are left to the totality rule: which of two errors at one position is shown is not stated).
+				// For an element made of alternatives this is judged in the force-newline mode only: there the whitespace
+				// error lies where the alternatives are tried; in the other modes it lies before that place, and the
+				// not-found error of an alternative that does not match is the furthest failure
+				a.Count("Many: whitespace errors beyond the accepted elements compared (message, line, column)", 1)
+				if err.Error() != want {
+					d["expected"] = want
+					d["error"] = err.Error()
+					a.Violate("whitespace-error-mismatch", "whitespace-error-mismatch", d)
+				}
 			default:
 				a.Count("rejected Many/SepBy layouts (totality only)", 1)
 			}
@@ -443,6 +486,9 @@ func c10exec(j run.Job, a *run.Acc) {
 			for i, t := range toks {
 				t.Left, t.Right = int(hb>>uint(4*i))%5-1, int(hb>>uint(4*i+2))%5-1
 				t.Trim = false
+				if t.Alt != "" {
+					t.Right = -1 // tokens made of alternatives are left-trimmed only (see the generator)
+				}
 				toksB[i] = t
 			}
 			mk := func(ts []c10tok) parsley.Parser {
